@@ -42,6 +42,7 @@ type CodecCase struct {
 	Frames      []FrameSpec `json:"frames,omitempty"` // roundtrip, oversize-write
 	Raw         []RawSpec   `json:"raw,omitempty"`    // bytes: concatenated
 	IDString    string      `json:"id_string,omitempty"`
+	IDString2   string      `json:"id_string2,omitempty"` // id-string: second id for the injectivity check
 	Chunks      []int       `json:"chunks,omitempty"`
 	Fixed       int         `json:"fixed,omitempty"`
 	EOFWithLast bool        `json:"eof_with_last,omitempty"`
@@ -294,6 +295,13 @@ func codecFailure(c CodecCase) (*failure, string, bool, string) {
 		return nil, "codec:oversize-write", true, fmt.Sprintf("ow|%d", c.Frames[0].Len)
 	case "id-string":
 		s := c.IDString
+		if c.IDString2 != "" || c.IDString == "" {
+			a, b := c.IDString, c.IDString2
+			if prefix16(a) != prefix16(b) && wireID(a) == wireID(b) {
+				return &failure{"C10/tunnel-ids-differing-in-first-16-bytes-share-wire-id/TunnelIDFromString", fmt.Sprintf("ids %q and %q differ within their first 16 bytes (%x vs %x) but both get the wire id %x", a, b, prefix16(a), prefix16(b), wireID(a))}, "", false, ""
+			}
+			return nil, "codec:id-string-pair", prefix16(a) != prefix16(b), "idpair|" + a + "|" + b
+		}
 		id, err := crossnode.TunnelIDFromString(s)
 		if err != nil {
 			return &failure{"C10/tunnel-id-string-rejected", fmt.Sprintf("%q: %v", s, err)}, "", false, ""
@@ -305,7 +313,11 @@ func codecFailure(c CodecCase) (*failure, string, bool, string) {
 			}
 			return &failure{"C10/tunnel-id-string-roundtrip", fmt.Sprintf("%q -> %x -> %q", s, id, back)}, "", false, ""
 		}
-		return nil, "codec:id-string", len(s) > 0, "id|" + s
+		cl := "codec:id-string"
+		if c.IDString2 != "" {
+			cl = "codec:id-string-pair"
+		}
+		return nil, cl, len(s) > 0, "id|" + s + "|" + c.IDString2
 	case "bytes":
 		var in []byte
 		for _, r := range c.Raw {
@@ -518,8 +530,25 @@ func genCodecCase(t *rapid.T) CodecCase {
 		c.Frames = []FrameSpec{f}
 	default:
 		c.Mode = "id-string"
-		if pick(t, "longID", 8, 2) == 1 {
-			c.IDString = realisticID(t, "ids") // > 16 bytes: the listed truncation
+		if pick(t, "idPair", 1, 1) == 1 {
+			// two ids that differ inside their first 16 bytes must get different wire ids
+			if pick(t, "pairKind", 2, 1, 1) == 0 {
+				k := rapid.IntRange(11, 15).Draw(t, "headLen")
+				head := rapid.StringMatching(fmt.Sprintf(`[a-z0-9-]{%d}`, k)).Draw(t, "head")
+				c.IDString = head + rapid.SampledFrom(straddleRunes).Draw(t, "r1") + rapid.StringMatching(`[a-z0-9国]{0,6}`).Draw(t, "ta")
+				c.IDString2 = head + rapid.SampledFrom(straddleRunes).Draw(t, "r2") + rapid.StringMatching(`[a-z0-9中]{0,6}`).Draw(t, "tb")
+			} else {
+				c.IDString, c.IDString2 = genID(t, "ida"), genID(t, "idb")
+			}
+			if c.IDString2 == "" {
+				c.IDString2 = "x"
+			}
+		} else if pick(t, "longID", 8, 2) == 1 {
+			if rapid.Bool().Draw(t, "straddleLong") {
+				c.IDString = genStraddleID(t, "ids") // may be <= 16 bytes
+			} else {
+				c.IDString = realisticID(t, "ids") // > 16 bytes: the listed truncation
+			}
 		} else {
 			s := genID(t, "ids")
 			if len(s) > 16 {
